@@ -2,6 +2,13 @@
 
 package lb
 
+var verifDefaultRandInt = randInt
+
 // VerifSetRandInt replaces the random source of the random and least-connection
-// balancers (verification builds only).
-func VerifSetRandInt(f func() int) { randInt = f }
+// balancers, nil restores the default (verification builds only).
+func VerifSetRandInt(f func() int) {
+	if f == nil {
+		f = verifDefaultRandInt
+	}
+	randInt = f
+}
